@@ -43,3 +43,22 @@ PROPS["C07"] = dict(
     trusted_base=ENG_TRUSTED + ["atomicity of writeProbe (runs under resultsMu) is an assumption of the transition system, supported by C14"],
     assumptions=["Go scheduler not modelled; the transition system's steps are the atomic actions of the Go code"],
 )
+
+DOC_RULE = ("Real traceroute.RunTraceroute under testing/synctest with the per-query function, the reverse-DNS resolver and the public-IP fetcher scripted: "
+            "0..3 runs x 0..8 end-to-end probes with distinct virtual completion instants (so every completion order occurs), failing subsets with error wrapping depth 0..3, "
+            "hops drawn from every private-block boundary (10/8, 172.16/12, 192.168/16, fc00::/7: first/last address and both neighbours), IPv4-mapped forms, empty hops, "
+            "dyadic RTT samples (exact in binary64), resolver answers names/empty/failure per canonical address, flags reverse-dns / skip-private / public-ip. "
+            "Observed through the JSON the call returns (decoded generically), the error's errors.Is exposure, and a decode/re-encode round trip.")
+DOC_TRUSTED = ["scripted per-query function / resolver / fetcher and synctest clock in /verif/harness; encoding/json, net.IP text codec, uuid, go-cache are modelled only (exercised, not verified)",
+               "float fields compared with relative tolerance 1e-9 (binary64) / 1e-6 (binary32 loss); identities over exact rationals are what the theorems state"]
+DOC_TRIVIAL = []
+PROPS["C15"] = dict(num=15, labs=["doc"], rule=DOC_RULE, nontrivial="at least one query (run or probe) in the request", trivial_classes=[0, 32, 64, 96],
+    signatures={"15": "result/err violates all-or-error, exact counts, no run lost or duplicated, or an individual failure is not exposed by errors.Is", "99": "document could not be decoded"},
+    trusted_base=DOC_TRUSTED, assumptions=["the accumulator's mutex makes each append atomic (C14)"])
+PROPS["C16"] = dict(num=16, labs=["doc"], rule=DOC_RULE, nontrivial="at least one query in the request", trivial_classes=[0, 32, 64, 96],
+    signatures={"16.1": "reachable <> (address present)", "16.2": "hop-count min/avg/max inconsistent or outside run lengths", "16.3": "e2e sent/received/loss/min/avg/max/jitter inconsistent",
+                "16.4": "identifiers not fresh / not pairwise distinct / wrong length", "16.5": "JSON does not decode back and re-encode to the same document", "16.6": "JSON keys differ from the published contract"},
+    trusted_base=DOC_TRUSTED, assumptions=["uuid.New returns a value not returned before (oracle)"])
+PROPS["C17"] = dict(num=17, labs=["doc"], rule=DOC_RULE, nontrivial="at least one run in the request", trivial_classes=[0, 4, 8, 12, 32, 36, 40, 44, 64, 68, 72, 76, 96, 100, 104, 108],
+    signatures={"17.1": "a private address (or data derived from it) is still in the output", "17.2": "hop count/order/TTL changed, or a public hop was altered"},
+    trusted_base=DOC_TRUSTED, assumptions=[])
